@@ -341,6 +341,25 @@ pub enum MemoEmpty {
     Undefined,
 }
 
+impl SemTypeContext {
+    /// Called when an emptiness question that was open since `mark` turned out NOT empty: every
+    /// `empty` answer memoised in the meantime may have used the (now refuted) assumption that the
+    /// open type is empty, so it is forgotten and will be recomputed when asked again.
+    pub fn forget_provisional_empty_since(&mut self, mark: usize) {
+        while self.provisional_empty.len() > mark {
+            match self.provisional_empty.pop() {
+                Some(ProvisionalEmpty::Mapping(dnf)) => {
+                    self.mapping_memo_dnf.remove(&dnf);
+                }
+                Some(ProvisionalEmpty::List(bdd)) => {
+                    self.list_memo.remove(&bdd);
+                }
+                None => break,
+            }
+        }
+    }
+}
+
 impl MemoEmpty {
     pub fn from_bool(b: &IsEmptyStatus) -> MemoEmpty {
         match b {
@@ -353,6 +372,14 @@ impl MemoEmpty {
 #[derive(Clone, Debug)]
 pub struct BddMemoEmptyRef(pub MemoEmpty);
 
+/// A memo entry that says `empty` and was recorded while an enclosing emptiness question was still
+/// open: it may rest on the assumption that the enclosing type is empty.
+#[derive(Clone, Debug)]
+pub enum ProvisionalEmpty {
+    Mapping(Rc<Dnf>),
+    List(Bdd),
+}
+
 pub struct SemTypeContext {
     pub mapping_definitions: Vec<Option<Rc<MappingAtomicType>>>,
     pub mapping_memo: BTreeMap<Bdd, BddMemoEmptyRef>,
@@ -360,6 +387,8 @@ pub struct SemTypeContext {
 
     pub list_definitions: Vec<Option<Rc<ListAtomic>>>,
     pub list_memo: BTreeMap<Bdd, BddMemoEmptyRef>,
+    /// `empty` answers memoised since the outermost open question, oldest first
+    pub provisional_empty: Vec<ProvisionalEmpty>,
 
     pub map_definitions: Vec<Option<Rc<MappingAtomicType>>>,
     pub map_memo: BTreeMap<Bdd, BddMemoEmptyRef>,
@@ -417,6 +446,7 @@ impl SemTypeContext {
             mapping_definitions: vec![],
             mapping_memo: BTreeMap::new(),
             mapping_memo_dnf: BTreeMap::new(),
+            provisional_empty: Vec::new(),
             list_definitions: vec![],
             list_memo: BTreeMap::new(),
             map_definitions: vec![],
